@@ -637,6 +637,13 @@ def deleg_slice(ctx, facts, fid, finisher=None, rule="DELEG"):
     allowed_mut = {id(c)}
     if finisher:
         fcalls = [n for n in user_nodes(fn) if n["k"] == "MethodCall" and n["name"] == finisher and nf.nf(n["recv"]) == "self"]
+        # the public finishing entry point (checked by IDEMPOTENT/EMPTY: it runs the finisher once when bins are empty and
+        # reports its failure) may be called instead of the finisher itself
+        via = [n for n in user_nodes(fn) if n["k"] == "MethodCall" and n["name"] == "end_sketch" and nf.nf(n["recv"]) == "self" and not n["args"]]
+        wrapped = False
+        if not fcalls and len(via) == 1:
+            fcalls = via
+            wrapped = True
         if len(fcalls) != 1:
             ctx.violation(rule, fid, "finisher", hirq.loc(fn), "expected exactly one call of self.%s after the loop, found %d" % (finisher, len(fcalls)))
             return
@@ -651,7 +658,8 @@ def deleg_slice(ctx, facts, fid, finisher=None, rule="DELEG"):
             return
         allowed_mut.add(id(fc))
         from . import C09 as _C09
-        _C09.report_checked(ctx, fn, fid, fc)
+        if not wrapped:
+            _C09.report_checked(ctx, fn, fid, fc)
     others = [n for (n, _k) in mutating_self_calls(fn) if id(n) not in allowed_mut]
     ws = writes_to_self(fn)
     if others or ws:
